@@ -4,6 +4,21 @@ COQ = "machine-checked proof in Coq 8.16.1 about a hand-written Gallina model; m
 NOT_CLAIMED = {}
 
 CLAIMS = {
+    "C07": dict(
+        technique="Coq proof (cidx_is_position: index expression = position in the row-major pair enumeration, bijection, no 64-bit wrap) + bit-exact correspondence incl. the mutated matrix slot by slot + slot-probe search",
+        text="Theorems (Props/C07.v, closed): for every n and r<c<n the expression ((2n-r-3)r/2)+c-1 is the position of (r,c) in (0,1),(0,2),...,(n-2,n-1); it is injective and onto [0,n(n-1)/2); its 64-bit wrapping evaluation equals the mathematical value for n<2^32, so checked and release builds address the same slot without panic. The observable consequence (first step = unique smallest slot's pair, second single-linkage step = second smallest) is searched on the real entry points for n up to thousands (slot_probe); the model's use of the index is tied to the code by the bit-exact algo/hist correspondence, which compares the caller's matrix after the call slot by slot.",
+        note="The 'first step merges that pair' consequence is proved only through the index theorem plus correspondence, not as a theorem about every algorithm. Print Assumptions: closed.",
+    ),
+    "C08": dict(
+        technique="Coq proof (reset_canonical for arbitrary states, with_pure, history_pure by induction over call lists) + bit-exact correspondence on reuse histories + fresh-vs-reused and 16-thread search",
+        text="Theorems (Props/C08.v, closed): LinkageState::reset produces the same state from ANY prior state (vectors of any length/content, modelling stale data and half-finished panicked calls; the resize-without-clear resets of Active, LinkageHeap and LinkageUnionFind are modelled as such and proved to overwrite every cell); hence each of the five _with entry points, for every method/float type/profile/input, yields the same outcome from any two states, and by induction every call of every finite history equals the call on fresh objects. Tie: correspondence on histories of 2-10 calls (sizes growing/shrinking/0/1, malformed and NaN-panicking calls interleaved).",
+        note="Threads: the model is a pure function, so 'concurrent calls do not influence each other' is not a theorem; it is covered only by the oracle's concurrent differential run (partial). Print Assumptions: closed.",
+    ),
+    "C19": dict(
+        technique="Coq proof over all operation sequences of the container API (push capacity, reset, label order, cluster_size, eq_with_epsilon characterisation) + bit-exact correspondence on random op sequences against the public API",
+        text="Theorems (Props/C19.v, closed): push succeeds iff len < n-1 (saturating), so exactly n-1 pushes are accepted after new/reset and the next panics (immediately for n<=1); reset empties and sets n; Step::new/set_clusters store min/max of the labels; cluster_size is 1 below n, else the recorded size of step label-n (index panic otherwise); eq_with_epsilon is true iff lengths agree and every step pair has identical labels/size and dissimilarities that are == or whose rounded difference is not > eps; the capacity invariant holds after ANY op sequence. Tie: 800+ random op sequences over two dendrograms (f32/f64) compared bit for bit with the model.",
+        note="'cluster_size = number of observations beneath the label for dendrograms returned by clustering' depends on C01 well-formedness and is checked by the C01 oracle, not proved here. eq_with_epsilon uses the float reading of 'differ by at most eps'. Print Assumptions: closed.",
+    ),
     "C13": dict(
         technique="Coq proof (shape_check_sound, malformed_rejected) + bit-exact model/code correspondence on malformed shapes in dev and release profiles",
         text="Theorems (Props/C13.v, closed under the global context): for every n < 2^32, every len, both build profiles (checked and wrapping 64-bit arithmetic) the shape check accepts iff len = n(n-1)/2 with the empty matrix for n <= 1, and every one of the 10 entry points (any method, any float type, ANY prior scratch state) panics on a malformed shape before producing a dendrogram. The model is tied to the code by the shape correspondence stream (both profiles, extreme n included) and an exhaustive (len, n) sweep of the real entry points searches for a failing input.",
